@@ -176,10 +176,10 @@ structure HeadInv (n m : Nat) (P : Problem α) (pr : Params α) (s : St α D) : 
   sized : Sized n m s.curr
 
 theorem mainLoop_exit_inv {n m : Nat} (P : Problem α) (hPs : ProblemSized n m P)
-    (dir : Direction D α) (hD : DirSized n dir) (pr : Params α)
+    (dir : Direction D α) (d0 : D) (hD : DirSized n dir d0) (pr : Params α)
     (hmin : 0 ≤ pr.minLsCoef) (stop : Nat → Bool) (oot : Bool)
     (x0 y Sig errz0 : Vec α) (fuel : Nat) (s : St α D) (h : HeadInv n m P pr s)
-    (hf : s.fuelOut = false)
+    (hd : DirOK n dir d0 s.k s.d) (hf : s.fuelOut = false)
     (hr : (mainLoop P dir pr stop oot x0 y Sig errz0 fuel s).fuelOut = false) :
     ∃ s', HeadInv n m P pr s' ∧
       mainLoop P dir pr stop oot x0 y Sig errz0 fuel s =
@@ -206,16 +206,19 @@ theorem mainLoop_exit_inv {n m : Nat} (P : Problem α) (hPs : ProblemSized n m P
       have hh : HeadInv n m P pr (headStep P pr stop oot s).1 :=
         ⟨headStep_inv False True P pr stop oot s h.loop, (headStep_good P pr stop oot s h.good).1,
           (headStep_gh P pr stop oot s h.grad).1, headStep_sized hPs pr stop oot s h.sized⟩
-      exact ih _ ⟨iterBody_inv False True 0 0 (fun _ => 0) (fun _ => True) P dir pr (fun hF => hF.elim) stop _ _
-          (fun hF => hF.elim) hmin hh.loop hls,
+      have hdh : DirOK n dir d0 (headStep P pr stop oot s).1.k (headStep P pr stop oot s).1.d := by
+        rw [(headStep_d P pr stop oot s).1, (headStep_d P pr stop oot s).2]; exact hd
+      exact ih _ ⟨iterBody_inv False True 0 0 (fun _ => 0) (fun _ => True) P dir d0 pr (fun hF => hF.elim) stop _ _
+          (fun hF => hF.elim) (fun hF => hF.elim) hmin hh.loop hls,
         iterBody_good P dir pr stop _ _ hh.good hfh hf2,
         iterBody_gh P dir pr stop _ _ hh.grad hfh hf2,
-        (iterBody_sized hPs dir hD pr stop _ _ hh.sized hls).1⟩ hf2 hr
+        (iterBody_sized hPs dir d0 hD pr stop _ _ hh.sized hdh hls).1⟩
+        (Or.inr (iterBody_reach hPs dir d0 hD pr stop _ _ hh.sized hdh hls)) hf2 hr
 
 /-- A solve either returns before the main loop (`NotFinite`, nothing written) or through the exit
     block at a loop head satisfying `HeadInv`. -/
 theorem run_exit_inv {n m : Nat} (P : Problem α) (hPs : ProblemSized n m P)
-    (dir : Direction D α) (hD : DirSized n dir) (d0 : D) (pr : Params α)
+    (dir : Direction D α) (d0 : D) (hD : DirSized n dir d0) (pr : Params α)
     (hp : ParamsOK pr) (stop : Nat → Bool) (oot : Bool) (x0 y Sig errz0 gV : Vec α) (gS iS : α)
     (hx0 : x0.length = n)
     (hfuel : (run P dir d0 pr stop oot x0 y Sig errz0 gV gS iS).fuelOut = false) :
@@ -226,20 +229,21 @@ theorem run_exit_inv {n m : Nat} (P : Problem α) (hPs : ProblemSized n m P)
           (headStep P pr stop oot s').2.2 x0 y Sig errz0 := by
   have hi := initState_inv P d0 pr stop x0 gV gS iS hp
   have hz := initState_sized hPs d0 pr stop x0 gV gS iS hx0
+  have hid := initState_d P d0 pr stop x0 gV gS iS
   unfold run at hfuel ⊢
   cases hs : initState P d0 pr stop x0 gV gS iS with
   | inl t => left; rfl
   | inr s =>
     right
-    rw [hs] at hi hz
+    rw [hs] at hi hz hid
     simp only [hs] at hfuel ⊢
     have hf0 : s.fuelOut = false := by
       rcases Bool.eq_false_or_eq_true s.fuelOut with hc | hc
       · have := mainLoop_fuelOut_mono P dir pr stop oot x0 y Sig errz0 (pr.maxIter + 2) s hc
         rw [this] at hfuel; exact absurd hfuel (by decide)
       · exact hc
-    exact mainLoop_exit_inv P hPs dir hD pr hp.minLs stop oot x0 y Sig errz0 _ s
+    exact mainLoop_exit_inv P hPs dir d0 hD pr hp.minLs stop oot x0 y Sig errz0 _ s
       ⟨hi hf0 False True (fun _ => trivial), initState_good P d0 pr stop x0 gV gS iS s hs,
-        initState_gh P d0 pr stop x0 gV gS iS s hs, hz⟩ hf0 hfuel
+        initState_gh P d0 pr stop x0 gV gS iS s hs, hz⟩ (Or.inl hid) hf0 hfuel
 
 end Alpaqa.Panoc
